@@ -5,22 +5,77 @@
     source are regenerated into Gen/FsWalk_gen.v on every run and the premises [backend_keys_ok], [walk_ok] (and
     the chain parameters) are discharged for them by kernel-checked instance obligations in checks/c19.py. *)
 From Coq Require Import List NArith Bool Permutation.
-From SV Require Import SM.FsChain SM.FsChainProofs SM.FsChainRel SM.FsChainWitness.
+From SV Require Import SM.FsChain SM.FsChainProofs SM.FsChainRel SM.FsChainWitness SM.FsChainRaw SM.FsChainCompose SM.FsChainComplete SM.FsChainNorm.
 Import ListNotations.
 Open Scope N_scope.
 
 (** ** Lookup: every backend with recognised key functions implements one specification map. *)
 
-(** Two backends given the same files agree on _get_file, _file_exists and open_bin for every query spelling
-    (that normpath leaves alone), and all equal the specification map (folded name -> last stored file). *)
+(** Today's source: every query function converts the slashes, normalises the path and folds the case
+    ([backend_keys_norm]).  Then two backends given the same files agree on _get_file, _file_exists and open_bin for
+    *every* query string, and all equal the specification map (folded name -> last stored file) at the normalised
+    query: redundant separators, "." and ".." segments, either slash and letter case are all insignificant. *)
+Theorem c19_lookup_agree_all : forall b1 b2 fs q,
+  backend_keys_norm b1 = true -> backend_keys_norm b2 = true -> clean_fs fs = true ->
+  lookup b1 fs q = lookup b2 fs q
+  /\ exists_ b1 fs q = exists_ b2 fs q
+  /\ open_ b1 fs q = open_ b2 fs q
+  /\ open_ b1 fs q = lookup b1 fs q
+  /\ lookup b1 fs q = spec_lookup fs (normpath (slash q))
+  /\ exists_ b1 fs q = match spec_lookup fs (normpath (slash q)) with Some _ => true | None => false end.
+Proof. exact lookup_agree_all. Qed.
+
+(** Any recognised form (with or without normpath, before or after the slash conversion): for every query, the file
+    served is the specification's file for the query as that backend pre-normalises it. *)
+Theorem c19_lookup_norm : forall b fs q,
+  store_ops_ok (b_store b) = true -> key_ops_ok (b_get b) = true -> clean_fs fs = true ->
+  lookup b fs q = spec_lookup fs (prenorm (norm_kind (b_get b)) q).
+Proof. exact lookup_norm. Qed.
+
+(** Hence backends of different recognised forms (the pinned tree: Virtual normalised on '/' only, Zip and VPK not at
+    all) still agree on every query that normpath leaves alone, with either slash. *)
 Theorem c19_lookup_agree : forall b1 b2 fs q,
-  backend_keys_ok b1 = true -> backend_keys_ok b2 = true -> clean_fs fs = true -> normpath q = q ->
+  backend_keys_ok b1 = true -> backend_keys_ok b2 = true -> clean_fs fs = true -> stable q ->
   lookup b1 fs q = lookup b2 fs q
   /\ exists_ b1 fs q = exists_ b2 fs q
   /\ open_ b1 fs q = open_ b2 fs q
   /\ open_ b1 fs q = lookup b1 fs q
   /\ lookup b1 fs q = spec_lookup fs q.
 Proof. exact lookup_agree. Qed.
+
+(** ... but not on the others: the forms of the pinned tree disagree on "./x", and the pinned Virtual form
+    distinguishes the two slashes (".\\x" is not found although "./x" is). *)
+Theorem c19_lookup_unnormalised_refuted :
+  let fs := [([120], [1])] in
+  lookup pinned_virtual fs [46; 47; 120] = Some ([120], [1]) /\ lookup pinned_zip fs [46; 47; 120] = None
+  /\ lookup pinned_vpk fs [46; 47; 120] = None /\ lookup pinned_virtual fs [46; 92; 120] = None
+  /\ backend_keys_norm pinned_virtual = false /\ backend_keys_norm pinned_zip = false
+  /\ backend_keys_norm fixed_virtual = true /\ lookup fixed_virtual fs [46; 92; 120] = Some ([120], [1]).
+Proof. exact lookup_unnormalised_refuted. Qed.
+
+(** Which spellings that identifies: normpath drops the empty segments (doubled and trailing slashes) and the "."
+    segments of a relative path (".." segments are resolved too, shown by computation and correspondence only) ... *)
+Theorem c19_normpath_noise : forall segs,
+  segs <> [] -> forallb nosl segs = true -> no_dotdot segs = true ->
+  is_prefix [SL] (join_with SL segs) = false -> denoise segs <> [] ->
+  normpath (join_with SL segs) = join_with SL (denoise segs).
+Proof. exact normpath_noise. Qed.
+(** ... so two spellings with the same segments up to that noise, with either slash, are one name for every backend
+    of today's form ("./sub//x/.", "sub\\x" and "sub/x"). *)
+Theorem c19_lookup_noise_insensitive : forall b fs q q' segs segs',
+  backend_keys_norm b = true -> clean_fs fs = true ->
+  slash q = join_with SL segs -> slash q' = join_with SL segs' ->
+  segs <> [] -> forallb nosl segs = true -> no_dotdot segs = true -> is_prefix [SL] (slash q) = false ->
+  segs' <> [] -> forallb nosl segs' = true -> no_dotdot segs' = true -> is_prefix [SL] (slash q') = false ->
+  denoise segs <> [] -> denoise segs = denoise segs' ->
+  lookup b fs q = lookup b fs q' /\ exists_ b fs q = exists_ b fs q' /\ open_ b fs q = open_ b fs q'.
+Proof. exact lookup_noise_insensitive. Qed.
+Example c19_noise_example :
+  let segs := [[46]; [115]; []; [120]; [46]] in
+  join_with SL segs = [46; 47; 115; 47; 47; 120; 47; 46] /\ denoise segs = [[115]; [120]]
+  /\ normpath (join_with SL segs) = [115; 47; 120]
+  /\ normpath [115; 47; 46; 46; 47; 115; 47; 120] = [115; 47; 120].
+Proof. exact noise_example. Qed.
 
 (** Letter case and the two slash characters are insignificant in a query. *)
 Theorem c19_lookup_case_slash_insensitive : forall fs q q', nkey q = nkey q' -> spec_lookup fs q = spec_lookup fs q'.
@@ -52,6 +107,36 @@ Theorem c19_raw_agree : forall fs e,
   clean_fs fs = true -> NoDup (map (fun e => nkey (fst e)) fs) -> In e fs ->
   raw_lookup fs (fst e) = Some e /\ spec_lookup fs (fst e) = Some e.
 Proof. exact raw_lookup_agree. Qed.
+
+(** The directory backend as translated (the name goes through [ops], then abspath): a query that - slashes converted,
+    redundant parts removed - is the exact stored name finds that file in the directory backend and in every folding
+    backend of today's form. *)
+Theorem c19_raw_agrees_with_folded : forall b ops fs e q,
+  backend_keys_norm b = true -> raw_ops_ok ops = true -> clean_fs fs = true ->
+  NoDup (map (fun e => nkey (fst e)) fs) -> In e fs -> normpath (slash q) = fst e ->
+  raw_lookup_ops ops fs q = Some e /\ lookup b fs q = Some e /\ exists_ b fs q = true /\ open_ b fs q = Some e.
+Proof. exact raw_agrees_with_folded. Qed.
+(** Its walk lists exactly the stored files below the normalised folder (the empty folder: all), and every listed
+    name looks up to that file. *)
+Theorem c19_raw_walk_exact : forall ops fs folder e,
+  In e (raw_walk ops fs folder) <-> In e fs /\ path_prefix (raw_folder ops folder) (fst e).
+Proof. exact raw_walk_exact. Qed.
+Theorem c19_raw_walk_root : forall ops fs, raw_ops_ok ops = true -> raw_walk ops fs [] = fs.
+Proof. exact raw_walk_root. Qed.
+Theorem c19_raw_walk_lookup_closed : forall ops ops' fs folder e,
+  raw_ops_ok ops = true -> clean_fs fs = true -> NoDup (map (fun e => nkey (fst e)) fs) ->
+  In e (raw_walk ops' fs folder) -> raw_lookup_ops ops fs (fst e) = Some e.
+Proof. exact raw_walk_lookup_closed. Qed.
+(** Without the conversion (the pinned tree) a backslashed exact-case name is not found. *)
+Example c19_raw_examples :
+  let fs := [([115; 47; 120], [1]); ([116], [2])] in
+  raw_ops_ok [OSlash] = true
+  /\ raw_lookup_ops [OSlash] fs [115; 92; 120] = Some ([115; 47; 120], [1])
+  /\ raw_lookup_ops [] fs [115; 92; 120] = None
+  /\ raw_lookup_ops [OSlash] fs [46; 92; 115; 47; 47; 120] = Some ([115; 47; 120], [1])
+  /\ raw_walk [OSlash] fs [46; 47; 115; 92] = [([115; 47; 120], [1])]
+  /\ raw_walk [OSlash] fs [46] = fs.
+Proof. exact raw_examples. Qed.
 
 (** ** walk_folder *)
 
@@ -103,6 +188,21 @@ Theorem c19_walk_case_sensitive_refuted :
   walk b [(s_Mat_x, [])] s_mat = [] /\ lookup b [(s_Mat_x, [])] (s_mat ++ [47; 120]) = Some (s_Mat_x, []).
 Proof. exact walk_case_sensitive_refuted. Qed.
 
+(** A loop over the container's own directory index ([VPK.fileinfos(folder=...)], which compares the directory names
+    as stored) hides a folder stored with capitals; a loop over the container itself lists case-duplicates that the
+    lookup cannot tell apart.  Both shapes are recognised by the translator and rejected by [walk_ok]. *)
+Theorem c19_walk_prefilter_case_refuted :
+  prefilter_case_sensitive prefilter_vpk = true /\ walk_ok prefilter_vpk = false
+  /\ walk prefilter_vpk [(s_Mat_x, [])] s_mat = []
+  /\ lookup prefilter_vpk [(s_Mat_x, [])] (s_mat ++ [47; 120]) = Some (s_Mat_x, [])
+  /\ walk prefilter_vpk [(s_Mat_x, [])] [] = [(s_Mat_x, [])].
+Proof. exact walk_prefilter_case_refuted. Qed.
+Theorem c19_walk_container_duplicates_refuted :
+  walk_ok container_vpk = false
+  /\ walk container_vpk [(s_Mat_x, [1]); (s_mat ++ [47; 120], [2])] s_mat = [(s_Mat_x, [1]); (s_mat ++ [47; 120], [2])]
+  /\ lookup container_vpk [(s_Mat_x, [1]); (s_mat ++ [47; 120], [2])] s_Mat_x = Some (s_mat ++ [47; 120], [2]).
+Proof. exact walk_container_duplicates_refuted. Qed.
+
 (** The repaired forms satisfy the premises (the theorems above are not vacuous). *)
 Example c19_premises_satisfiable :
   walk_ok fixed_virtual = true /\ backend_keys_ok fixed_virtual = true
@@ -129,6 +229,18 @@ Proof. exact chain_priority_first. Qed.
 Theorem c19_chain_append_last : forall i m ms q,
   chain_get (add_sys i false m ms) q = match chain_get ms q with Some f => Some f | None => asks q m end.
 Proof. exact chain_append_last. Qed.
+
+(** [add_sys] as translated (what each branch does with the new member): today's branches are the ones above; with
+    the branches swapped a priority member would be consulted last (witness). *)
+Theorem c19_chain_add_sys_today : forall priority m ms,
+  add_sys2 (InsertAt 0) Append priority m ms = add_sys 0 priority m ms.
+Proof. exact add_sys2_today. Qed.
+Theorem c19_chain_add_sys_swapped_refuted :
+  let m1 := member_of fixed_zip [([120], [1])] [] in
+  let m2 := member_of fixed_zip [([120], [2])] [] in
+  chain_get (add_sys2 Append (InsertAt 0) true m2 [m1]) [120] = Some ([120], [1])
+  /\ chain_get (add_sys2 (InsertAt 0) Append true m2 [m1]) [120] = Some ([120], [2]).
+Proof. exact add_sys2_swapped_refuted. Qed.
 
 (** A subfolder-restricted member is asked for "<prefix>/<name>", an unrestricted one for the name ... *)
 Theorem c19_chain_prefix_relative : forall p q,
@@ -181,3 +293,53 @@ Theorem c19_chain_relpath_case_refuted :
   map fst (chain_walk_repeat RelPath [m] []) = [[46; 46; 47; 109; 97; 116; 47; 120]]
   /\ map fst (chain_walk_repeat RelDropSegs [m] []) = [[120]].
 Proof. exact chain_relpath_case_refuted. Qed.
+
+(** A de-duplication that stores into a dict unconditionally lists each name once but with the File of the *last*
+    member; the visited-set form lists the File the chain's lookup returns. *)
+Theorem c19_chain_walk_overwrite_refuted :
+  let m1 := member_of fixed_zip [([120], [1])] [] in
+  let m2 := member_of fixed_zip [([120], [2])] [] in
+  chain_walk_mode DedupOverwrite RelDropSegs [OFold] [m1; m2] [] = [([120], ([120], [2]))]
+  /\ chain_get [m1; m2] [120] = Some ([120], [1])
+  /\ chain_walk_mode DedupSkip RelDropSegs [OFold] [m1; m2] [] = [([120], ([120], [1]))].
+Proof. exact chain_walk_overwrite_refuted. Qed.
+
+(** ** Composition: the chain's walk and the chain's lookup tell the same story.
+    For a chain (any list of members, i.e. any ordering / priority insertion) whose members are sound backends
+    ([walk_ok], [backend_keys_ok]) over clean file sets with empty or clean prefixes, and an empty or clean folder:
+    every (path, File) listed by the de-duplicated walk is exactly what [chain[path]] returns - the listed name can be
+    looked up, and it yields the File of the first member that has the name. *)
+Theorem c19_chain_walk_lookup_closed : forall dops ms folder x,
+  dedup_ops_ok dops = true -> Forall sound_member ms -> okp folder ->
+  In x (chain_walk RelDropSegs dops ms folder) ->
+  chain_get ms (fst x) = Some (snd x).
+Proof. exact chain_walk_lookup_closed. Qed.
+Theorem c19_chain_walk_first_member : forall dops ms folder x,
+  dedup_ops_ok dops = true -> Forall sound_member ms -> okp folder ->
+  In x (chain_walk RelDropSegs dops ms folder) ->
+  exists pre m post, ms = pre ++ m :: post /\ asks (fst x) m = Some (snd x) /\ Forall (fun m' => asks (fst x) m' = None) pre.
+Proof. exact chain_walk_first_member. Qed.
+(** What a restricted member lists for a folder: the surviving files whose folded name is prefix "/" rest with the folder
+    a path prefix of rest (prefix and folder each empty or clean, either slash, any case). *)
+Theorem c19_walk_member : forall b fs p folder e,
+  walk_ok b = true -> clean_fs fs = true -> okp p -> okp folder ->
+  (In e (walk b fs (full_name p folder)) <->
+   In e (entries b fs) /\ exists R, under p (nkey (fst e)) R /\ path_prefix (nkey folder) R).
+Proof. exact walk_member. Qed.
+Example c19_compose_premises_satisfiable :
+  okp [] /\ okp [109; 97; 116] /\ okp [77; 92; 120] /\ dedup_ops_ok [OFold] = true.
+Proof. exact compose_premises_satisfiable. Qed.
+
+(** ... and conversely the walk is complete: whatever the chain serves under a clean name lying inside the folder is
+    listed (up to letter case) with the very File the lookup returns; the chain's lookup itself ignores case and
+    slash kind of a clean name. *)
+Theorem c19_chain_walk_complete : forall dops ms folder q f,
+  dedup_ops_ok dops = true -> Forall sound_member ms -> okp folder ->
+  clean_name q = true -> path_prefix (nkey folder) (nkey q) ->
+  chain_get ms q = Some f ->
+  exists x, In x (chain_walk RelDropSegs dops ms folder) /\ nkey (fst x) = nkey q /\ snd x = f.
+Proof. exact chain_walk_complete. Qed.
+Theorem c19_chain_get_variant : forall ms q q',
+  Forall sound_member ms -> clean_name q = true -> clean_name q' = true -> nkey q = nkey q' ->
+  chain_get ms q = chain_get ms q'.
+Proof. exact chain_get_variant. Qed.
